@@ -751,6 +751,9 @@ def numpy_call(it, n, name, short, args, kwargs, st, hd, c, cx):
     if short in ("interp",):
         return Val("arr", dep=hd, cfg=c, shape=a0.shape, extra=("interp", args))
     if short in ("where",):
+        if len(args) == 3:
+            # data-dependent selection between two values: the expression-level form of an if
+            it.emit("select", n, st, dep=args[0].dep, pred=unparse(n.args[0])[:100] if n.args else "")
         shape = args[1].shape if len(args) > 1 else None
         return Val("arr", dep=hd, cfg=c, shape=shape, extra=("where", args))
     if short in ("diff",):
